@@ -8,6 +8,10 @@ import (
 	"testing"
 
 	"github.com/biogo/biogo/alphabet"
+	"github.com/biogo/biogo/seq"
+	"github.com/biogo/biogo/seq/alignment"
+	"github.com/biogo/biogo/seq/linear"
+	"github.com/biogo/biogo/seq/multi"
 	"pgregory.net/rapid"
 
 	sm "verif/internal/seqmodel"
@@ -39,7 +43,7 @@ type algebraCase struct {
 	Ops  []op    `json:"ops"`
 }
 
-var compAlphas = []string{"DNA", "DNAgapped", "DNAredundant", "RNA", "RNAgapped", "RNAredundant"}
+var compAlphas = []string{"DNA", "DNAgapped", "DNAredundant", "RNA", "RNAgapped", "RNAredundant", "PairedProtein"}
 var kinds = []string{"lseq", "lqseq", "aseq", "aqseq", "multi", "multiq", "set", "setq"}
 
 func genLetters(t *rapid.T, alpha string, n int) string {
@@ -341,4 +345,134 @@ func classes(c algebraCase) []string {
 func TestAlgebra(t *testing.T) {
 	vlib.Run(t, vlib.Prop[algebraCase]{Name: "revcomp-reverse-clone-histories", Checks: 5000, Thorough: 480000, Gen: gen, Check: check, Classes: classes,
 		MinFrac: map[string]float64{"clone-then-mutate": 0.15, "multi-ragged-revcomp": 0.05, "odd-length": 0.4, "kind-aqseq": 0.05, "kind-multi": 0.05}})
+}
+
+// ---- empty containers (bounded-exhaustive) ------------------------------------------------
+//
+// Length 0 is part of "all lengths": a sequence or alignment with no letters
+// (no columns, no rows, rows without letters) takes RevComp, Reverse and Clone
+// like any other; nothing is left to swap, the strand is still negated by
+// RevComp, and nothing panics. The history model above needs at least one
+// column to observe the rows of a column-stored alignment, so this class is
+// enumerated here.
+
+type emptyCase struct {
+	Kind   string   `json:"kind"`
+	Alpha  string   `json:"alpha"`
+	Strand int8     `json:"strand"`
+	Ops    []string `json:"ops"`
+}
+
+var emptyKinds = []string{"lseq", "lqseq", "aseq", "aqseq", "multi-no-rows", "multi-empty-rows", "multiq-empty-rows", "set-no-rows", "set-empty-rows"}
+var emptyOps = [][]string{{"revcomp"}, {"reverse"}, {"clone"}, {"revcomp", "revcomp"}, {"reverse", "reverse"}, {"clone", "revcomp"}, {"revcomp", "clone"}, {"reverse", "revcomp"}}
+
+type emptyObj interface {
+	RevComp()
+	Reverse()
+}
+
+func checkEmpty(c emptyCase) (f *vlib.Failure) {
+	a := sm.Alpha(c.Alpha)
+	defer func() {
+		if r := recover(); r != nil {
+			f = vlib.Failf("panic-on-empty", "%s over %s, ops %v: %v", c.Kind, c.Alpha, c.Ops, r)
+		}
+	}()
+	var obj emptyObj
+	var strand func() seq.Strand
+	var length func() int
+	var clone func() emptyObj
+	switch c.Kind {
+	case "lseq":
+		s := linear.NewSeq("e", nil, a)
+		s.Strand = seq.Strand(c.Strand)
+		obj, strand, length = s, func() seq.Strand { return s.Strand }, s.Len
+		clone = func() emptyObj { return s.Clone().(*linear.Seq) }
+	case "lqseq":
+		s := linear.NewQSeq("e", nil, a, alphabet.Sanger)
+		s.Strand = seq.Strand(c.Strand)
+		obj, strand, length = s, func() seq.Strand { return s.Strand }, s.Len
+		clone = func() emptyObj { return s.Clone().(*linear.QSeq) }
+	case "aseq":
+		s, err := alignment.NewSeq("e", nil, nil, a, seq.DefaultConsensus)
+		if err != nil {
+			return vlib.Failf("construction", "alignment.NewSeq without columns: %v", err)
+		}
+		s.Strand = seq.Strand(c.Strand)
+		obj, strand, length = s, func() seq.Strand { return s.Strand }, s.Len
+		clone = func() emptyObj { return s.Clone().(*alignment.Seq) }
+	case "aqseq":
+		s, err := alignment.NewQSeq("e", nil, nil, a, alphabet.Sanger, seq.DefaultQConsensus)
+		if err != nil {
+			return vlib.Failf("construction", "alignment.NewQSeq without columns: %v", err)
+		}
+		s.Strand = seq.Strand(c.Strand)
+		obj, strand, length = s, func() seq.Strand { return s.Strand }, s.Len
+		clone = func() emptyObj { return s.Clone().(*alignment.QSeq) }
+	case "multi-no-rows", "multi-empty-rows", "multiq-empty-rows":
+		var rows []seq.Sequence
+		if c.Kind == "multi-empty-rows" {
+			rows = []seq.Sequence{linear.NewSeq("a", nil, a), linear.NewSeq("b", nil, a)}
+		}
+		if c.Kind == "multiq-empty-rows" {
+			rows = []seq.Sequence{linear.NewQSeq("a", nil, a, alphabet.Sanger), linear.NewQSeq("b", nil, a, alphabet.Sanger)}
+		}
+		m, err := multi.NewMulti("e", rows, seq.DefaultConsensus)
+		if err != nil {
+			return vlib.Failf("construction", "multi.NewMulti: %v", err)
+		}
+		obj, length = m, m.Len
+		clone = func() emptyObj { return m.Clone().(*multi.Multi) }
+	default:
+		s := multi.Set{}
+		if c.Kind == "set-empty-rows" {
+			s = multi.Set{linear.NewSeq("a", nil, a), linear.NewQSeq("b", nil, a, alphabet.Sanger)}
+		}
+		obj, length = s, s.Len
+	}
+	want := seq.Strand(c.Strand)
+	for _, op := range c.Ops {
+		switch op {
+		case "revcomp":
+			obj.RevComp()
+			want = -want
+		case "reverse":
+			obj.Reverse()
+			want = 0 // not asserted after a Reverse (the statement leaves the strand of a reversed sequence open)
+			strand = nil
+		case "clone":
+			if clone != nil {
+				cl := clone()
+				cl.RevComp() // a mutation of the clone; the original's strand must not move
+			}
+		}
+		// (a Multi or Set without rows has no span at all: the extent is taken over
+		// the rows, so its Len is not asserted - only that nothing panics)
+		if n := length(); n != 0 && c.Kind != "multi-no-rows" && c.Kind != "set-no-rows" {
+			return vlib.Failf("empty-length", "%s over %s: Len() = %d after %v", c.Kind, c.Alpha, n, c.Ops)
+		}
+	}
+	if strand != nil && strand() != want {
+		return vlib.Failf("revcomp-strand", "empty %s over %s starting on strand %d: strand %d after %v, want %d", c.Kind, c.Alpha, c.Strand, strand(), c.Ops, want)
+	}
+	return nil
+}
+
+func TestEmpty(t *testing.T) {
+	vlib.RunEnum(t, vlib.Enum[emptyCase]{Name: "empty-containers", DistinctByConstruction: true,
+		Each: func(yield func(emptyCase) bool) {
+			for _, k := range emptyKinds {
+				for _, al := range compAlphas {
+					for _, st := range []int8{1, -1, 0} {
+						for _, ops := range emptyOps {
+							if !yield(emptyCase{Kind: k, Alpha: al, Strand: st, Ops: ops}) {
+								return
+							}
+						}
+					}
+				}
+			}
+		},
+		Check:   checkEmpty,
+		Classes: func(c emptyCase) []string { return []string{"empty-" + c.Kind, vlib.NT} }})
 }
